@@ -30,6 +30,7 @@ from ..engines.refconn import RefConn
 from ..engines.reflink import RefLink
 from ..engines.refpeer import RefKey, RefPeer
 from ..engines.sshwire import string
+from ..engines.sshwire import u32 as refpeer_u32
 
 PROPERTY_ID = 'C08'
 LEVEL = 'exploration'
@@ -485,7 +486,18 @@ def run_streams(case) -> CaseResult:
                 results.append((op, 'incomplete', exc.partial))
                 continue
             results.append((op, 'ok', out))
-        results.append((['rest'], 'ok', await reader.read()))
+
+        final = case.get('final', 'read')
+        proc = getattr(reader, '_c08_proc', None)
+
+        if proc is not None and final == 'communicate':
+            out, _ = await proc.communicate()
+        elif proc is not None and final == 'wait':
+            out = (await proc.wait()).stdout
+        else:
+            out = await reader.read()
+
+        results.append((['rest'], 'ok', out))
 
     if role == 'server':
         ref = RefPeer('client')
@@ -522,8 +534,17 @@ def run_streams(case) -> CaseResult:
             raise Violation('setup', 'client did not authenticate', 'setup')
 
         async def client():
-            _, rd, _ = await link.conn.open_session(
-                'cmd', encoding=None, window=W, max_pktsize=P)
+            if case.get('final', 'read') != 'read':
+                # the process API: the rest is collected by communicate() /
+                # wait() instead of a read
+                proc = await link.conn.create_process(
+                    'cmd', encoding=None, window=W, max_pktsize=P)
+                rd = proc.stdout
+                rd._c08_proc = proc      # pylint: disable=protected-access
+                labels.add('final:' + case['final'])
+            else:
+                _, rd, _ = await link.conn.open_session(
+                    'cmd', encoding=None, window=W, max_pktsize=P)
             readers.append(rd)
             await program(rd)
 
@@ -554,6 +575,13 @@ def run_streams(case) -> CaseResult:
             elif not eof_sent:
                 conn.eof(rch)
                 eof_sent = True
+
+                if role == 'client' and case.get('final', 'read') != 'read':
+                    # communicate() / wait() return when the command has
+                    # finished: exit status and channel close
+                    conn.chan_request(rch, b'exit-status', False,
+                                      refpeer_u32(0))
+                    conn.close(rch)
 
             before = (sent, len(results), rch.send_window)
             link.pump()
@@ -672,6 +700,7 @@ def streams_strategy(tier: str):
             st.tuples(st.just('wait'), pick([1, 5])).map(list))
         return {'role': draw(pick(['server', 'client'])), 'window': W,
                 'maxpkt': P, 'total': total,
+                'final': draw(pick(['read', 'read', 'communicate', 'wait'])),
                 'ops': ([['wait', 3]] if draw(st.booleans()) else []) +
                 draw(st.lists(op, min_size=0, max_size=6))}
 
@@ -698,6 +727,7 @@ FAMILIES = [
            budget={'quick': 1200, 'thorough': 16000},
            required={'all': ['role:server', 'role:client', 'stream>window',
                              'exact>window', 'window:1',
-                             'reader-starts-late']},
+                             'reader-starts-late', 'final:communicate',
+                             'final:wait']},
            case_timeout=120, timeout_is_violation=True),
 ]
